@@ -4,15 +4,15 @@
    Serialize.v (wl2qlc, read_qlc, QLCParser conversion, LexStat derived columns and pairs);
    the namespace table is LVGen.NamespaceRc.namespace_rc, regenerated from data/conf/wordlist.rc.
 
-   NOT PROVED (tested on the implementation only, see notes/design/C13.md): the <msa> blocks and the
-   reconstruction of the per-cognate-set alignments by Alignments.add_alignments.  The full clause would be
-     msa_roundtrip : forall msa, msa_ok msa -> read_msa_block (write_msa_block msa) = Some msa
-   and is not modelled; what is proved for an aligned wordlist is the round trip of its ALIGNMENT column
-   (a segment-list column like any other, C13_file_roundtrip). *)
+   <msa> blocks (msa2str inside wl2qlc, read_qlc + _list2msa) and the state Alignments.add_alignments rebuilds from
+   the columns are modelled in Wordlist/SerializeMsa.v (theorems C13_msa_*, C13_alignments_state_roundtrip below).
+   NOT PROVED (tested on the implementation only, see notes/design/C13.md): that the saved object's own msa state
+   agrees with its ALIGNMENT column (an invariant of Alignments.align / _msa2col, checked on every generated case by
+   the correspondence bit), the consensus annotation (refuted below), MERGE/COMPLEX lines, string ids. *)
 From Coq Require Import QArith Qabs ZArith List Bool Permutation.
 From LV Require Import Wordlist.SerializeStr Wordlist.SerializeStrProofs Wordlist.SerializeNum Wordlist.SerializeNumProofs
-  Wordlist.Serialize Wordlist.SerializeProofs Wordlist.SerializeBlockProofs Wordlist.SerializeExec
-  Wordlist.SerializeExecProofs.
+  Wordlist.Serialize Wordlist.SerializeProofs Wordlist.SerializeBlockProofs Wordlist.SerializeMsa
+  Wordlist.SerializeMsaProofs Wordlist.SerializeExec Wordlist.SerializeExecProofs.
 From LVGen Require Import NamespaceRc.
 Import ListNotations.
 Local Open Scope Z_scope.
@@ -184,6 +184,96 @@ Example C13_dst_nontrivial :
                                [[0%Q; (1 # 32)%Q]; [(1 # 32)%Q; 0%Q]])
      = Some [[r4 0%Q; r4 (1 # 32)%Q]; [r4 (1 # 32)%Q; r4 0%Q]].
 Proof. split; [vm_compute; reflexivity|]. split; [vm_compute; reflexivity|]. apply dst_block_roundtrip; repeat constructor; discriminate. Qed.
+
+(* ---- aligned wordlists: <msa> blocks ----
+   guard msa_okb: as many ids and taxa as rows; at least one row; rows of one length >= 1; segments non-empty,
+   blank-free, not ending in '.'; taxon names free of TAB/LF/CR and of blanks at the ends, not ending in '.';
+   ids <> 0; LOCAL positions strictly increasing and inside the alignment; swaps (a, a+1, a+2) in increasing order,
+   non-overlapping, inside the alignment; no consensus.  The stamp lines are comment lines. *)
+Theorem C13_msa_roundtrip : forall stamp m, msa_okb m = true -> Forall (fun l => starts 35 l = true) stamp ->
+  read_msa_body (msa_body stamp m)
+  = Ok (mk_msa_read (m_ids m) (m_taxa m) (m_alm m) (map degap (m_alm m)) (m_local m) (m_swaps m) None).
+Proof. exact msa_body_roundtrip. Qed.
+Print Assumptions C13_msa_roundtrip.
+
+(* the whole MSA section of a file: closed (the data part that follows is read as before) and every cognate
+   set comes back under its reference column and id *)
+Theorem C13_msa_section_roundtrip : forall ref ms, ref_ok ref -> Forall entry_ok ms ->
+  closed_pre (msa_section ref ms)
+  /\ read_msa_section (msa_section ref ms)
+     = Ok (map (fun e => (ref, fst (fst e), expected_read (snd e))) ms).
+Proof. exact msa_section_roundtrip. Qed.
+Print Assumptions C13_msa_section_roundtrip.
+
+Theorem C13_aligned_file_roundtrip : forall tbl pretty stamp w ref ms,
+  wl_okb tbl w = true -> ref_ok ref -> Forall entry_ok ms -> Forall skipline stamp ->
+  exists ls, write pretty (msa_section ref ms) stamp w = Ok ls
+    /\ read tbl ls = Ok (mk_wl (wl_cols w) (sorted_rows w))
+    /\ read_msa_section ls = Ok (map (fun e => (ref, fst (fst e), expected_read (snd e))) ms).
+Proof. exact aligned_file_roundtrip. Qed.
+Print Assumptions C13_aligned_file_roundtrip.
+
+Definition ex_msa : msa :=
+  mk_msa [2; 1; 3] [[69; 110; 103]; [71; 101; 114; 109; 97; 110; 46; 65]; [82; 117]]
+         [[[119]; [111]; [108]; [45]; [100]]; [[119]; [97]; [108]; [45]; [100]]; [[118]; [45]; [108]; [97]; [100]]]
+         [0%nat; 4%nat] [(1%nat, 2%nat, 3%nat)] None.
+Example C13_msa_guard_inhabited :
+  msa_okb ex_msa = true /\ ref_ok c_cogid
+  /\ msa_body [] ex_msa
+     = [[35]; [48; 9; 67; 79; 76; 85; 77; 78; 73; 68; 9; 49; 9; 50; 9; 51; 9; 52; 9; 53]; [35];
+        [48; 9; 76; 79; 67; 65; 76; 46; 46; 46; 9; 42; 9; 46; 9; 46; 9; 46; 9; 42];
+        [48; 9; 67; 82; 79; 83; 83; 69; 68; 46; 9; 46; 9; 43; 9; 45; 9; 43; 9; 46]; [35];
+        [50; 9; 69; 110; 103; 46; 46; 46; 46; 46; 9; 119; 9; 111; 9; 108; 9; 45; 9; 100];
+        [49; 9; 71; 101; 114; 109; 97; 110; 46; 65; 9; 119; 9; 97; 9; 108; 9; 45; 9; 100];
+        [51; 9; 82; 117; 46; 46; 46; 46; 46; 46; 9; 118; 9; 45; 9; 108; 9; 97; 9; 100]].
+Proof. split; [vm_compute; reflexivity|]. split; [repeat split; intros I; cbn in I; tauto || (repeat (destruct I as [I|I]; [discriminate I|]); exact I)|vm_compute; reflexivity]. Qed.
+
+(* the guards are needed.  A consensus of two segments is written into the tag as consensus="a b": the tag no longer
+   splits into key=value pieces and read_qlc raises (ValueError) - the file cannot be loaded at all. *)
+Theorem C13_msa_consensus_refuted : exists m,
+  msa_okb (mk_msa (m_ids m) (m_taxa m) (m_alm m) (m_local m) (m_swaps m) None) = true
+  /\ read_msa_section (msa_section c_cogid [(1, [], m)]) = Err.
+Proof.
+  exists (mk_msa [2; 1] [[65]; [66]] [[[104]; [97]]; [[104]; [111]]] [] [] (Some [[104]; [97]])).
+  split; vm_compute; reflexivity.
+Qed.
+Print Assumptions C13_msa_consensus_refuted.
+
+(* a taxon name ending in '.' comes back without the dots (rstrip('.') on the dot-padded name) *)
+Theorem C13_msa_taxon_dot_refuted : exists m r,
+  read_msa_body (msa_body [] m) = Ok r /\ r_ids r = m_ids m /\ r_alm r = m_alm m /\ r_taxa r <> m_taxa m.
+Proof.
+  exists (mk_msa [2; 1] [[65; 46]; [66]] [[[104]; [97]]; [[104]; [111]]] [] [] None).
+  eexists. split; [vm_compute; reflexivity|]. repeat split. discriminate.
+Qed.
+Print Assumptions C13_msa_taxon_dot_refuted.
+
+(* ---- aligned wordlists written WITHOUT the blocks: the state add_alignments rebuilds from the columns ----
+   guard no_crossb: no cognate set has, inside one doculect, words for two different concepts *)
+Theorem C13_alignments_state_roundtrip : forall tbl w ref taxa cogids,
+  wl_okb tbl w = true -> no_crossb (wl_cols w) ref (wl_rows w) = true ->
+  alignments_state (wl_cols w) ref taxa cogids (sorted_rows w)
+  = alignments_state (wl_cols w) ref taxa cogids (wl_rows w).
+Proof. exact alignments_state_roundtrip. Qed.
+Print Assumptions C13_alignments_state_roundtrip.
+
+Definition ex_cross : wl :=
+  mk_wl [s_doculect; s_concept; c_tokens; c_cogid]
+        [ (5, [VStr [69]; VStr [104; 97; 110; 100]; VList [[104]; [97]]; VInt 2]);
+          (9, [VStr [69]; VStr [97; 114; 109]; VList [[104]; [111]]; VInt 2]) ].
+(* the guard is needed: one doculect, one cognate set, two concepts - the rows of the set come back in another order *)
+Theorem C13_alignments_state_cross_concept_refuted :
+  wl_okb namespace_rc ex_cross = true
+  /\ map (fun e => r_ids (snd e)) (alignments_state (wl_cols ex_cross) c_cogid [[69]] [2] (wl_rows ex_cross)) = [[5; 9]]
+  /\ map (fun e => r_ids (snd e)) (alignments_state (wl_cols ex_cross) c_cogid [[69]] [2] (sorted_rows ex_cross)) = [[9; 5]].
+Proof. repeat split; vm_compute; reflexivity. Qed.
+Print Assumptions C13_alignments_state_cross_concept_refuted.
+
+Example C13_alignments_state_inhabited :
+  no_crossb (wl_cols ex_wl) c_cogid (wl_rows ex_wl) = true
+  /\ map (fun e => (fst e, r_ids (snd e))) (alignments_state (wl_cols ex_wl) c_cogid [[69; 110; 103]; [71; 101; 114]] [1; 2] (wl_rows ex_wl))
+     = [(1, [1; 3])].
+Proof. split; vm_compute; reflexivity. Qed.
 
 (* ---- the checkers that run on the implementation's output ---- *)
 Theorem C13_checker_sound : forall w loaded, same_objectb w loaded = true ->
